@@ -31,7 +31,8 @@ PROPS = {
         technique="model-based testing: expected event stream computed from a generated JSON model with printer-recorded byte spans; round-trip (value rebuilt from events); differential between the three cloned scanners via overlay hooks",
         level_text=("Bounded exploration: for generated valid JSON texts (depth<=8, width<=8, all scalar forms, arbitrary blanks) the NextLexeme stream is compared "
                     "with the stream the model implies (nesting, spans inside input, literal/key/container spans exact), the value is rebuilt from events alone, "
-                    "and through add-only overlay hooks the schema and enum scanners' streams are compared with the document scanner's. Sampled plus a small exhaustive tier."),
+                    "and through add-only overlay hooks the schema and enum scanners' streams are compared with the document scanner's; the same values embedded into schema syntax ('#' and '###' user comments, "
+                    "blank lines, LF/CRLF/CR line ends) must give the model's stream at the printer-recorded offsets; a full read after a partial read followed by the first Len/Check must equal the fresh read. Sampled plus a small exhaustive tier."),
         level_note="trusted: reference JSON parser and printer (cross-checked against each other on every case); value-end/item-end spans are only required to lie inside the input and begin at their partner's begin",
         rule=("inputs: valid JSON texts printed from rapid-generated models (depth 0-8, width 0-8, exponents, -0, long digit strings, every escape kind, surrogate pairs, "
               "2-4 byte UTF-8 in keys and values, empty and nested-empty containers, duplicate keys, blanks drawn per token gap incl. none), plus every valid text that is a "
@@ -41,6 +42,7 @@ PROPS = {
         jobs=[
             job("events", "^TestDocEvents", (4, 16), (8000, 60000), (300, 3000)),
             job("three-scanners", "^TestThreeScanners$", (4, 16), (6000, 50000), (300, 3000), pkg="c06h"),
+            job("decorated-schema", "^TestDecoratedSchema$", (2, 8), (6000, 50000), (300, 3000), pkg="c06h"),
             job("fuzz", "", (0, 0), (0, 0), (0, 0), fuzz="FuzzLexemes", fuzztime=90, tiers=("thorough",)),
         ],
     ),
@@ -159,11 +161,11 @@ PROPS["C04"] = dict(
 PROPS["C08"] = dict(
     pkg="c08", level="exploration", exhaustive_claim=False,
     technique="bounded-exhaustive enumeration of rule subsets x node kinds x all permutations with a metamorphic oracle (order independence) and a clause-by-clause reference table; rapid-sampled larger sets",
-    level_text=("Every subset of size <=2 (quick) / <=3 (thorough) of a 32-atom rule vocabulary is written on each of 10 node kinds, at the root and as an object property, in every order: the verdict must not "
+    level_text=("Every subset of size <=2 (quick) / <=3 (thorough) of a 36-atom rule vocabulary is written on each of 10 node kinds, at the root and as an object property, in every order: the verdict must not "
                 "depend on the order, and where the statement has a clause it must equal a reference table with one block per clause. Sets of 3-5 rules are sampled with all permutations."),
     level_note="trusted: harness/ref/applicable.go (combinations without a clause are only checked for order independence and counted as excluded)",
     rule=("rule atoms: min/max (in range, equal to the example, disordered), exclusive flags true/false, precision, minLength/maxLength(+disordered), regex, minItems/maxItems(+disordered), additionalProperties, "
-          "allOf, enum, or, type (kind name / any / @reference / decimal / date), optional, nullable true+false (two atoms = duplicate), const true/false, an unknown name; node kinds: object, empty object, array, "
+          "allOf (of a type with properties / of an empty object type), enum, or, type (kind name / any / @reference / decimal / date), optional true+false, nullable true+false (two atoms = duplicate), const true/false, an unknown name; node kinds: object, empty object, array, "
           "empty array, string, integer, float, boolean, null, type shortcut. non-trivial = >=2 rules (>=2 orders executed) or a single rule judged by the table; distinct by (kind, position, rule set)"),
     assumptions=["example values satisfy the value rules except where an atom is deliberately disordered, so a rejection is about applicability/consistency"],
     jobs=[job("exhaustive", "^TestExhaustiveSmallSets$", (4, 16), (1, 1), (900, 3000)),
